@@ -7,8 +7,8 @@ set -e
 P="$1"; shift; case "$P" in none|/*) ;; *) P="$PWD/$P";; esac
 WT=${WP_WT:-/tmp/wt_main}; H=${WP_H:-/tmp/h_main}; OUT=${WP_OUT:-/tmp/wp_out}   # override to run several at once
 if [ ! -d $WT ]; then git -C /repo worktree add --detach $WT HEAD >/dev/null 2>&1; fi
-git -C $WT checkout -q --detach "$(git -C /repo rev-parse HEAD)"
 git -C $WT reset -q --hard; git -C $WT clean -qfd
+git -C $WT checkout -q --detach "$(git -C /repo rev-parse HEAD)"
 if [ "$P" != "none" ]; then git -C $WT apply "$P"; fi
 mkdir -p $H
 rsync -a --delete --exclude target /verif/harness/ $H/
